@@ -5,6 +5,12 @@ V = os.path.dirname(os.path.dirname(os.path.abspath(__file__)))
 PY = '/venv/bin/python'
 
 CLAIMED = {
+  'C10': ('state-machine model of one TBRMatchedMarkets object (caller parameters, data.geo_index, stored results): for every call history every non-retrieval call answers as on a fresh object, retrieval answers with the last stored search, parameters unchanged (C10_history_free, C10_params_unchanged, C10_results_idempotent); negative witnesses for the two repaired defects; history correspondence with fresh-object oracle and deep snapshots',
+          'Lean proof by invariant over call histories + differential call histories against fresh objects',
+          'object aliasing/deep copies are runtime behaviour (snapshots); design_within_constraints is outside the property op list', '7/C10'),
+  'C15': ('canonical table laws (one row per geo, sorted distinct dates, cell = mean or 0, rows by decreasing mean), shares = mean/sum and add to 1, aggregation = sums in geo-index order (perm-invariant), truncation, reconciliation accept/reject rule, assignable set, index setter (18 theorems); correspondence incl. repeated geo-index installations',
+          'Lean proof over an exact-rational data model + differential frames x eligibility tables',
+          'pandas pivot/sort/loc and numpy indexing modelled on lists; ties in geo means outside the comparison', '7/C15'),
   'C05': ('required impact = (tq_sig + tq_pow) x the analysis-side posterior scale at the planning displacement (C05_calibration with C06_closed_form), sigma identity, lower-bound consequence, homogeneity, shift invariance, strict antitonicity in |rho| under tq_sig + tq_pow > 0 (partial; the unrestricted claim is refuted by C05_antitone_fails and recorded as a known finding); three-way correspondence design code / analysis code / model',
           'Lean/Mathlib proof over ℝ of the algebraic identities + Float differential run against numpy/scipy/statsmodels',
           'floating point, scipy quantiles and numpy/statsmodels algorithms are outside the theorems; Float correspondence to 1e-9 on well-conditioned data', '7/C05'),
